@@ -5,10 +5,10 @@ import (
 	"time"
 
 	"github.com/honeycombio/refinery/config"
-	peer "github.com/honeycombio/refinery/verifexport/peerx"
 	"github.com/honeycombio/refinery/logger"
 	"github.com/honeycombio/refinery/pubsub"
 	"github.com/honeycombio/refinery/sharder"
+	peer "github.com/honeycombio/refinery/verifexport/peerx"
 	"github.com/jonboulle/clockwork"
 )
 
